@@ -107,6 +107,10 @@ Theorem C03_checker_sound : forall t, Pb t = true -> P t.
 Proof. exact Pb_sound. Qed.
 Print Assumptions C03_checker_sound.
 
+Theorem C03_program_checker_sound : forall n g, Pprog_b n g = true -> Pprog n g.
+Proof. exact Pprog_b_sound. Qed.
+Print Assumptions C03_program_checker_sound.
+
 (** Non-vacuity: a concrete two-transaction history with a contract creation, nested frames, a
     reverted SSTORE/refund/log/SELFDESTRUCT frame meets all hypotheses. *)
 Theorem C03_hypotheses_nonvacuous : kwf empty_keeper /\ hist_wf' empty_keeper [ex_ops; ex_tx2].
